@@ -221,6 +221,11 @@ def trees(ctx):
         for a, b in itertools.combinations(cells, 2):
             if a[0] != b[0]:
                 doubles.append([a, b])
+    if ctx.quick:
+        # two faults of the same kind around / before the good files (only with two-file layouts in the quick tier)
+        for kind in ("non_utf8", "dangling_link", "unserialisable", "fails_late_defines_t"):
+            for a, b in (("0.css", "b.css"), ("0.css", "n.css"), ("b.css", "n.css")):
+                doubles.append([(a, kind), (b, kind)])
     return layouts, singles, doubles
 
 
@@ -239,6 +244,8 @@ def run(ctx):
     jobs = []
     for lay in layouts:
         for f in singles + doubles:
+            if ctx.quick and len(f) == 2 and len(lay) != 2:
+                continue
             if ctx.quick and len(lay) == 3 and f and f[0][0] not in ("b.css", FAULT_POS[-1]):
                 continue   # quick tier: full layouts get faults between the files and in the nested hidden place only
             for st in settings_list:
